@@ -40,10 +40,11 @@ def ensure_cxx2c():
 
 class Unit:
     """A set of root functions of one translation unit of /repo (or of a driver TU that only instantiates templates)."""
-    def __init__(self, name, tu, roots=(), prefixes=(), mangled=(), outline=(), transparent=('std::basic_string_view',), names=None, catalogue=False):
+    def __init__(self, name, tu, roots=(), prefixes=(), mangled=(), outline=(), transparent=('std::basic_string_view', 'std::pair'), names=None, catalogue=False, transparent_fn=('std::equal_to',)):
         self.name, self.tu, self.roots, self.prefixes, self.mangled = name, tu, list(roots), list(prefixes), list(mangled)
         self.outline, self.transparent, self.names, self.catalogue = list(outline), list(transparent), dict(names or {}), catalogue
         self.c = self.json = None
+        self.transparent_fn = list(transparent_fn)
         self.std = {}
 
     def lower(self, workdir):
@@ -55,7 +56,7 @@ class Unit:
         j = os.path.join(workdir, self.name + '.json')
         cmd = [CXX2C, tu, '--out=' + c, '--json=' + j]
         cmd += ['--root=' + r for r in self.roots] + ['--root-prefix=' + r for r in self.prefixes] + ['--root-mangled=' + r for r in self.mangled]
-        cmd += ['--outline=%s#%d' % (f, k) for f, k in self.outline] + ['--transparent-std-record=' + t for t in self.transparent]
+        cmd += ['--outline=%s#%d' % (f, k) for f, k in self.outline] + ['--transparent-std-record=' + t for t in self.transparent] + ['--transparent-std-fn=' + t for t in self.transparent_fn]
         if self.catalogue:
             cmd.append('--catalogue')
         cmd += ['--'] + CLANG_ARGS
@@ -65,6 +66,7 @@ class Unit:
         self.c, self.lower_s = c, dt
         self.json = json.load(open(j))
         self.by_name = {f['name']: f for f in self.json['functions']}
+        self.mutable_statics = [g['qualified'] for g in self.json['globals'] if not g['const']]
         return self
 
     def resolve_name(self, short):
@@ -232,7 +234,7 @@ def run_ob(ob, workdir, keep=False):
             raise Undecided('loop contracts requested but no loop-invariant obligation was generated')
         if failed:
             res['status'], res['failed'] = 'fail', failed
-        elif canaries == 0:
+        elif canaries == 0 and not getattr(ob, 'no_canary', False):
             raise Undecided('harness has no canary (vacuity guard missing)')
         elif canary_pass:
             raise Undecided('vacuous: canary not reachable: %s' % canary_pass[:3])
@@ -324,7 +326,7 @@ def load_baseline():
     return set(json.load(open(p))) if os.path.exists(p) else set()
 
 
-def run_property(pid, tier, obs, units, seed, level='proof', assumptions=(), trusted=(), extra=None, replayers=None, jobs=None, notes=None):
+def run_property(pid, tier, obs, units, seed, level='proof', assumptions=(), trusted=(), extra=None, replayers=None, jobs=None, notes=None, sweep_family=None):
     """lower the units, run the obligations in parallel, classify, write evidence, print VIOLATION / KNOWN-FINDING lines; returns exit code"""
     t0 = time.time()
     work = os.path.join(BUILD, 'run', pid + '-' + tier)
@@ -337,7 +339,13 @@ def run_property(pid, tier, obs, units, seed, level='proof', assumptions=(), tru
         except Undecided as e:
             undecided.append(dict(id='lower:' + u.name, reason=str(e)))
     results = []
-    if not undecided:
+    for u in units:
+        ms = [g for g in getattr(u, 'mutable_statics', []) if g not in getattr(u, 'allowed_statics', ())]
+        if ms:
+            # K6: the functions under contract read or write mutable static state; obligations start from the program's initial
+            # state and model one call (or a fixed short sequence), so history dependence through that state is outside the proof
+            undecided.append(dict(id='statics:' + u.name, reason='functions under contract use mutable static-storage state %s: not a function of their arguments; histories through that state are not covered' % ms))
+    if not [x for x in undecided if x['id'].startswith('lower:')]:
         jobs = jobs or int(os.environ.get('IPR_JOBS', '14'))
         order = list(obs)
         import random
@@ -362,6 +370,7 @@ def run_property(pid, tier, obs, units, seed, level='proof', assumptions=(), tru
                     known_hits.append((hit[0], r, f))
                 else:
                     rest.append(f)
+            tainted = [f for f in rest if f['description'].startswith('no body for callee') or 'unwinding assertion' in f['description'] or f['description'].startswith('recursion unwinding')]
             if rest:
                 if r['id'] not in baseline and os.environ.get('IPR_STRICT_BASELINE', '1') == '1' and baseline:
                     undecided.append(dict(id=r['id'], reason='fails but is not in the committed baseline of obligations (new instance?): ' + rest[0]['description']))
@@ -384,7 +393,24 @@ def run_property(pid, tier, obs, units, seed, level='proof', assumptions=(), tru
                         replay['native'] = 'replay failed to run: %s' % e
                 replay['reproduced_on_real_code'] = bool(confirmed)
                 json.dump(replay, open(rp, 'w'), indent=1)
+                if tainted and not confirmed:
+                    # the changed code calls something the harness has no contract for (or outgrew a loop bound): the failed
+                    # assertions are not trustworthy and nothing reproduced natively -> needs contract, not a violation
+                    undecided.append(dict(id=r['id'], reason='needs contract / bound: %s (no native reproduction)' % tainted[0]['description']))
+                    continue
                 violations.append((r, rp, confirmed))
+    if undecided and not violations and sweep_family:
+        # nothing decided for some obligation: fall back to the native sweep of this property on the real code, so that an
+        # undecided run does not hide a reproducible failure.  This is a bounded native exploration, labelled as such.
+        try:
+            ok, text = native_replay(sweep_family, {})
+        except Undecided as e:
+            ok, text = None, str(e)
+        if ok:
+            rp = os.path.join(VERIF, 'replay_out', '%s__native_sweep.json' % pid)
+            json.dump(dict(property=pid, obligation='(undecided: %s)' % '; '.join(u_['id'] for u_ in undecided), kind='native sweep (bounded exploration fallback)',
+                           undecided=undecided, native_family=sweep_family, native_args={}, native=text, reproduced_on_real_code=True), open(rp, 'w'), indent=1)
+            violations.append((dict(id='native-sweep', failed=[dict(description=l) for l in text.splitlines() if 'REPLAY-FAIL' in l][:4]), rp, True))
     for k, r, f in known_hits:
         print('KNOWN-FINDING: property=%s %s [obligation %s: %s]' % (pid, k['text'], r['id'], f['description']))
     for r, rp, confirmed in violations:
